@@ -909,13 +909,22 @@ func txgPanicSite() string {
 	return strings.Join(out, "<")
 }
 
-// txgPanicKey is the canonical class of a panic: its two innermost repository frames.
-func txgPanicKey(site string) string {
+// txgPanicKey is the canonical class of a panic: its two innermost repository
+// frames. A panic below one of the type dependent validators (validateInputs,
+// validateOutputs, validate<Type>...) is classed by the transaction type as
+// well, so that a known finding for one transaction type cannot hide the same
+// fault becoming reachable for another type; a panic in the type independent
+// prefix of Validate (e.g. GetExtraLimit) is classed by site alone.
+func txgPanicKey(site string, txType uint8) string {
 	parts := strings.Split(site, "<")
 	if len(parts) > 2 {
 		parts = parts[:2]
 	}
-	return "panic:" + strings.Join(parts, "<")
+	key := "panic:" + strings.Join(parts, "<")
+	if strings.Contains(site, "validate") {
+		key += fmt.Sprintf(":tx=%02x", txType)
+	}
+	return key
 }
 
 // txgRun pushes ver through Marshal -> UnmarshalVersionedTransaction and
